@@ -106,7 +106,7 @@ func runC19(c *ctx) error {
 	for round := 0; round < rounds; round++ {
 		var srcs [][]byte
 		for len(srcs) < docsPerRound {
-			o := &gen.Opts{R: rng, Str: c04Str, Key: gen.DefaultKey, MaxGroupDepth: 2, MaxMapSize: 12}
+			o := &gen.Opts{R: rng, Str: c04Str, Key: gen.KeyNoLongDigitRuns, MaxGroupDepth: 2, MaxMapSize: 12}
 			if b, err := yaml.Marshal(o.Pipeline()); err == nil {
 				srcs = append(srcs, b)
 			}
@@ -163,7 +163,10 @@ func runC19(c *ctx) error {
 	for sharedPipe == nil {
 		p, src := genParsedPipeline(rng, nil, 2)
 		if p != nil && len(commandStepsOf(p.Steps)) > 0 && !hasUnknownStep(p.Steps) {
-			sharedPipe, sharedSrc = p, src
+			// (readers compare YAML bytes: keep the documents whose YAML form is deterministic, see finding F22)
+			if t, err := decodeTree(src); err == nil && !hasLongDigitRunKey(dump.Any(t)) {
+				sharedPipe, sharedSrc = p, src
+			}
 		}
 	}
 	k := keys[0]
@@ -398,7 +401,7 @@ func runC19(c *ctx) error {
 			"steps:\n  - wait\n  - {zz: 1}\n",
 		}
 		for i := 0; i < 5; i++ {
-			o := &gen.Opts{R: rng, Str: c04Str, Key: gen.DefaultKey, MaxGroupDepth: 2, MaxMapSize: 8, TypeErrors: 30}
+			o := &gen.Opts{R: rng, Str: c04Str, Key: gen.KeyNoLongDigitRuns, MaxGroupDepth: 2, MaxMapSize: 8, TypeErrors: 30}
 			if b, err := yaml.Marshal(o.Pipeline()); err == nil {
 				docs = append(docs, string(b))
 			}
